@@ -143,6 +143,7 @@ def inputs_key():
         for sub in ("rumqttc", "rumqttd"):
             _hash_tree(h, os.path.join(REPO, sub), (".rs", ".toml"))
         h.update(open(os.path.join(REPO, "Cargo.lock"), "rb").read())
+        gen_admission()
         _hash_tree(h, os.path.join(KANI_CRATE, "src"), (".rs",))
         h.update(open(os.path.join(KANI_CRATE, "Cargo.toml"), "rb").read())
         _hash_tree(h, os.path.join(VERIF, "shims", "bytes", "src"), (".rs",))
@@ -170,6 +171,86 @@ def cache_put(kind, name, flags, obj):
     json.dump(obj, open(tmp, "w"))
     os.replace(tmp, cache_path(kind, name, flags))
 
+
+
+# ---------------------------------------------------------------------------
+# Source -> encoding for the one-line admission guard of the async event loop.
+# `EventLoop::select` is an `async fn` over tokio `select!` and cannot be executed by the solver,
+# but its flow-control guard is a loop-free boolean expression over four observable quantities.
+# It is extracted from /repo's CURRENT source on every run and re-emitted as a plain Rust `fn`
+# that the state-machine harnesses use as their admission rule; so a change to the guard changes
+# the formula the solver decides (and a change the extractor cannot parse fails the check as
+# "not covered" instead of being silently assumed away).
+
+GEN_DIR = os.path.join(KANI_CRATE, "src", "generated")
+
+_SUBST = [
+    (r"self\.state\.inflight\b(?!_)", "inflight"),
+    (r"self\.mqtt_options\.inflight\b", "max"),
+    (r"self\.state\.max_outgoing_inflight\b", "max"),
+    (r"self\.state\.collision\.is_some\(\)", "collision_pending"),
+    (r"self\.state\.collision\.is_none\(\)", "(!collision_pending)"),
+    (r"self\.pending\.is_empty\(\)", "pending_empty"),
+]
+_ALLOWED = re.compile(r"^(?:\s|inflight_full|inflight|max|collision_pending|collision|pending_empty|true|false|"
+                      r"&&|\|\||>=|<=|==|!=|>|<|!|\(|\)|\+|-|\d+)*$")
+
+
+def _translate(expr):
+    e = expr
+    for pat, rep in _SUBST:
+        e = re.sub(pat, rep, e)
+    if not _ALLOWED.match(e):
+        return None
+    return e.strip()
+
+
+def extract_admission(path):
+    """-> (inflight_full_expr, collision_expr, guard_expr) in harness vocabulary, or None"""
+    try:
+        src = open(path).read()
+    except OSError:
+        return None
+    m1 = re.search(r"let\s+inflight_full\s*=\s*([^;]+);", src)
+    m2 = re.search(r"let\s+collision\s*=\s*([^;]+);", src)
+    m3 = re.search(r"Self::next_request\((?:[^()]|\([^()]*\))*\)\s*,\s*if\s+(.*?)\s*=>\s*match\s+o\s*\{", src, re.S)
+    if not (m1 and m2 and m3):
+        return None
+    parts = [_translate(m.group(1)) for m in (m1, m2, m3)]
+    if any(x is None for x in parts):
+        return None
+    return tuple(parts)
+
+
+def gen_admission():
+    """Writes src/generated/admission.rs; returns list of problems (empty = ok)."""
+    os.makedirs(GEN_DIR, exist_ok=True)
+    problems = []
+    out = ["// GENERATED on every run by lib/driver.py from /repo/rumqttc/src/{,v5/}eventloop.rs - do not edit.",
+           "// The flow-control guard of `EventLoop::select`, re-emitted over plain values.", ""]
+    for name, rel in (("v4", "rumqttc/src/eventloop.rs"), ("v5", "rumqttc/src/v5/eventloop.rs")):
+        ex = extract_admission(os.path.join(REPO, rel))
+        if ex is None:
+            problems.append("cannot extract the admission guard of EventLoop::select from %s (shape changed)" % rel)
+            ex = ("inflight >= max", "collision_pending", "!pending_empty || (!inflight_full && !collision)")
+            out.append("// EXTRACTION FAILED for %s: falling back to the recorded guard; the check reports itself as not covering it" % rel)
+        out += [
+            "/// would `select()` take the next request? (`pending_empty` = nothing carried over from a previous connection)",
+            "#[allow(unused_parens, clippy::all)]",
+            "pub fn %s_takes_request(inflight: u16, max: u16, collision_pending: bool, pending_empty: bool) -> bool {" % name,
+            "    let inflight_full = %s;" % ex[0],
+            "    let collision = %s;" % ex[1],
+            "    %s" % ex[2],
+            "}", ""]
+    text = "\n".join(out)
+    path = os.path.join(GEN_DIR, "admission.rs")
+    old = open(path).read() if os.path.exists(path) else None
+    if old != text:
+        open(path, "w").write(text)
+    modp = os.path.join(GEN_DIR, "mod.rs")
+    if not os.path.exists(modp):
+        open(modp, "w").write("// generated sources (see lib/driver.py)\npub mod admission;\n")
+    return problems
 
 # ---------------------------------------------------------------------------
 # running Kani
@@ -206,8 +287,8 @@ def parse_stage(data, logpath):
     out = {}
     if data is None:
         return out
-    stats = {c["harness_id"]: c.get("cbmc_stats", {}) for c in data.get("cbmc", [])}
-    props = {c["harness_id"]: c.get("property_details", {}) for c in data.get("property_details", [])}
+    stats = {c["harness_id"]: (c.get("cbmc_stats") or {}) for c in data.get("cbmc", [])}
+    props = {c["harness_id"]: (c.get("property_details") or {}) for c in data.get("property_details", [])}
     errs = {c["harness_id"]: c for c in data.get("error_details", [])}
     srcs = {h["pretty_name"]: h.get("source", {}) for h in data.get("harness_metadata", [])}
     for r in data.get("verification_results", {}).get("results", []):
@@ -233,17 +314,22 @@ def parse_stage(data, logpath):
             "covers_satisfied": covers_sat,
             "covers_unsatisfied": covers_unsat,
             "undetermined": undet,
-            "props": props.get(hid, {}),
-            "stats": stats.get(hid, {}),
-            "error": errs.get(hid, {}),
-            "source": srcs.get(hid, {}),
+            "props": props.get(hid) or {},
+            "stats": stats.get(hid) or {},
+            "error": errs.get(hid) or {},
+            "source": srcs.get(hid) or {},
         }
     return out
 
 
+def decided(r):
+    return r["status"] == "Success" or (r["status"] == "Failure" and bool(r["failed"]))
+
+
 def cached_stage(filters, flags):
-    """All verdicts of a stage from the cache, or None if anything is missing / undecided."""
-    recs = {}
+    """-> (recs found in the cache, names of harnesses still to run) or None when the harness list
+    of some filter is not known yet."""
+    recs, missing = {}, []
     for f in filters:
         idx = cache_get("index", f, flags)
         if idx is None:
@@ -251,22 +337,22 @@ def cached_stage(filters, flags):
         for h in idx:
             r = cache_get("rec", h, flags)
             if r is None:
-                return None
-            recs[h] = r
-    return recs
+                missing.append(h)
+            else:
+                recs[h] = r
+    return recs, sorted(set(missing))
 
 
-def store_stage(filters, flags, recs):
-    # only decided verdicts are worth keeping; a timeout may pass next time on a quieter machine
-    if any(r["status"] not in ("Success", "Failure") or (r["status"] == "Failure" and not r["failed"])
-           for r in recs.values()):
-        return
-    for f in filters:
-        cache_put("index", f, flags, sorted(h for h in recs if f in h))
+def store_stage(filters, flags, recs, index=True):
+    # only decided verdicts are kept; a timeout may pass next time on a quieter machine
+    if index:
+        for f in filters:
+            cache_put("index", f, flags, sorted(h for h in recs if f in h))
     for h, r in recs.items():
-        r2 = dict(r)
-        r2["cached_at"] = time.strftime("%Y-%m-%dT%H:%M:%SZ", time.gmtime())
-        cache_put("rec", h, flags, r2)
+        if decided(r):
+            r2 = dict(r)
+            r2["cached_at"] = time.strftime("%Y-%m-%dT%H:%M:%SZ", time.gmtime())
+            cache_put("rec", h, flags, r2)
 
 
 def harnesses_listed(data):
@@ -332,6 +418,23 @@ def extract_playback(prop, harness, tdir, outdir, timeout, mem_gb, extra_args):
     return tests, lg
 
 
+def write_solver_only_witness(prop, harness, descs, rec, plog):
+    d = os.path.join(REPLAYS, prop)
+    os.makedirs(d, exist_ok=True)
+    path = os.path.join(d, harness.replace("::", "__") + ".solver-witness.txt")
+    with open(path, "w") as f:
+        f.write("property: %s\nharness: %s\n" % (prop, harness))
+        f.write("verdict: CBMC found the following assertion(s) violated for some input within the harness bounds:\n")
+        for dsc in descs:
+            f.write("  - %s\n" % dsc)
+        for fl in rec["failed"]:
+            if fl["description"] in descs:
+                f.write("    at %s (%s)\n" % (json.dumps(fl.get("location")), fl.get("function")))
+        f.write("native replay: NOT available - Kani's concrete-playback run (unsliced formula) exceeded the memory/time cap, see %s\n" % plog)
+        f.write("re-run: cd /verif/harness/kani && cargo kani -Z unstable-options -Z stubbing --harness %s --exact\n" % harness)
+    return path
+
+
 def write_replay_file(prop, harness, tests):
     d = os.path.join(REPLAYS, prop)
     os.makedirs(d, exist_ok=True)
@@ -357,6 +460,7 @@ def write_replay_file(prop, harness, tests):
 
 def native_replay(prop, path, release=False):
     """Run the playback tests natively against the real crates.  -> (reproduced, summary, log)"""
+    gen_admission()
     sync_lock(REPLAY_CRATE)
     tdir = target_dir("replay", prop)
     env = env_base()
@@ -444,6 +548,7 @@ def check_property(prop, tier, seed):
     os.makedirs(outdir, exist_ok=True)
     os.makedirs(EVIDENCE, exist_ok=True)
     tdir = target_dir("kani", prop)
+    gen_problems = gen_admission()
     fams = tier_families(prop, tier)
     rng = random.Random(seed)
 
@@ -471,27 +576,35 @@ def check_property(prop, tier, seed):
         log("[%s] %s: cargo kani, %d filter(s) %s, -j %d, harness timeout %ds"
             % (prop, name, len(filters), filters if len(filters) <= 6 else filters[:6] + ["..."], jobs, to))
         flags = "to=%s|mem=%s|extra=%s" % (to, mem, ",".join(extra))
-        recs = cached_stage(filters, flags)
-        if recs is not None:
-            log("[%s] %s: all %d harness verdict(s) reused from the cache (identical /repo + /verif inputs)"
-                % (prop, name, len(recs)))
+        cs = cached_stage(filters, flags)
+        exact = False
+        run_filters = filters
+        recs = {}
+        if cs is not None:
+            recs, missing = cs
             reused += len(recs)
-        else:
-            rc, dt, data, lg = kani_stage(prop, name, filters, jobs, to, mem, list(extra), tdir, outdir)
+            if recs:
+                log("[%s] %s: %d harness verdict(s) reused from the cache (identical /repo + /verif inputs), %d to run"
+                    % (prop, name, len(recs), len(missing)))
+            run_filters, exact = missing, True
+        if run_filters:
+            rc, dt, data, lg = kani_stage(prop, name, run_filters, jobs, to, mem, list(extra) + (["--exact"] if exact else []),
+                                          tdir, outdir)
             stage_logs.append(lg)
             if data is None:
                 tail = "".join(l for l in open(lg, errors="replace").readlines()[-60:] if not NOISE.search(l))
                 log("[%s] %s produced no JSON export (rc=%s). Log tail:\n%s" % (prop, name, rc, tail))
                 broken.append("stage %s: no result (build failure or crash), see %s" % (name, lg))
                 continue
-            recs = parse_stage(data, lg)
+            fresh = parse_stage(data, lg)
             listed = harnesses_listed(data)
             for h in listed:
-                if h not in recs:
-                    recs[h] = {"harness": h, "status": "NoResult", "duration_s": 0, "failed": [],
-                               "covers_satisfied": [], "covers_unsatisfied": [], "undetermined": [],
-                               "props": {}, "stats": {}, "error": {}, "source": {}}
-            store_stage(filters, flags, recs)
+                if h not in fresh:
+                    fresh[h] = {"harness": h, "status": "NoResult", "duration_s": 0, "failed": [],
+                                "covers_satisfied": [], "covers_unsatisfied": [], "undetermined": [],
+                                "props": {}, "stats": {}, "error": {}, "source": {}}
+            store_stage(filters, flags, fresh, index=not exact)
+            recs.update(fresh)
         for f in fl:
             got = [h for h in recs if any(flt in h for flt in f["filters"])]
             if len(got) < f.get("min_harnesses", 1):
@@ -503,7 +616,7 @@ def check_property(prop, tier, seed):
 
     # classify
     verdicts = {h: classify(r, prop) for h, r in results.items()}
-    violations, known_lines, inconclusive = [], [], []
+    violations, known_lines, inconclusive, solver_only = [], [], [], []
     for h, v in sorted(verdicts.items()):
         r = results[h]
         if v == "pass":
@@ -524,21 +637,28 @@ def check_property(prop, tier, seed):
         log("[%s] harness %s FAILED in the solver: %s" % (prop, h, descs))
         fam = fam_of.get(h, {})
         to = fam.get("timeout_" + tier, fam.get("timeout", 300 if tier == "quick" else 1800))
-        tests, plog = extract_playback(prop, h, tdir, outdir, to, fam.get("mem_gb", 24),
+        # the playback run keeps the whole trace (no formula slicing): give it most of the machine, one at a time
+        tests, plog = extract_playback(prop, h, tdir, outdir, max(to, 1800), 44,
                                        list(fam.get("kani_args", [])))
         if not tests:
-            inconclusive.append({"harness": h, "checks": descs,
-                                 "why": "no concrete playback test produced, see " + plog})
-            continue
-        path = write_replay_file(prop, h, tests)
-        rep = native_replay(prop, path, release=False)
-        rep_rel = native_replay(prop, path, release=True) if rep["built"] else None
-        r["replay"] = {"path": path, "dev": rep, "release": rep_rel}
-        reproduced = bool(rep["failed"]) or bool(rep_rel and rep_rel["failed"])
-        if not reproduced:
-            inconclusive.append({"harness": h, "checks": descs, "replay": path,
-                                 "why": "counterexample did not reproduce natively against the real crates"})
-            continue
+            # Kani's concrete-playback run keeps the whole trace (no formula slicing) and can exceed
+            # the machine on the heavier harnesses.  The solver's verdict on the sliced query stands;
+            # it is reported with a witness record (harness, failing assertions, how to re-run)
+            # instead of a native test, and the evidence says so.
+            path = write_solver_only_witness(prop, h, descs, r, plog)
+            r["replay"] = {"path": path, "native": False}
+            rep = {"panics": [], "failed": [], "built": False}
+            solver_only.append(h)
+        else:
+            path = write_replay_file(prop, h, tests)
+            rep = native_replay(prop, path, release=False)
+            rep_rel = native_replay(prop, path, release=True) if rep["built"] else None
+            r["replay"] = {"path": path, "dev": rep, "release": rep_rel, "native": True}
+            reproduced = bool(rep["failed"]) or bool(rep_rel and rep_rel["failed"])
+            if not reproduced:
+                inconclusive.append({"harness": h, "checks": descs, "replay": path,
+                                     "why": "counterexample did not reproduce natively against the real crates"})
+                continue
         hits = match_known(prop, h, descs, rep["panics"])
         if hits:
             for k in hits:
@@ -548,6 +668,9 @@ def check_property(prop, tier, seed):
             violations.append({"harness": h, "checks": descs, "replay": path,
                                "panics": rep["panics"]})
 
+    if registry.PROPS[prop].get("uses_admission"):
+        for gp in gen_problems:
+            broken.append("not covered: " + gp)
     guards = run_guards(prop)
     for g, ok, why in guards:
         if not ok:
@@ -556,7 +679,7 @@ def check_property(prop, tier, seed):
 
     wall = time.time() - t0
     write_evidence(prop, tier, seed, fams, results, verdicts, violations, known_lines,
-                   inconclusive, broken, guards, wall, reused)
+                   inconclusive, broken, guards, wall, reused, solver_only)
 
     for l in sorted(set(known_lines)):
         log(l)
@@ -579,12 +702,12 @@ def check_property(prop, tier, seed):
 
 
 def write_evidence(prop, tier, seed, fams, results, verdicts, violations, known_lines,
-                   inconclusive, broken, guards, wall, reused=0):
+                   inconclusive, broken, guards, wall, reused=0, solver_only=()):
     P = registry.PROPS[prop]
-    obligations = sum(r["props"].get("total_properties", 0) for r in results.values())
-    discharged = sum(r["props"].get("passed", 0) + r["props"].get("satisfied", 0)
+    obligations = sum((r["props"].get("total_properties") or 0) for r in results.values())
+    discharged = sum((r["props"].get("passed") or 0) + (r["props"].get("satisfied") or 0)
                      for r in results.values())
-    unreachable = sum(r["props"].get("unreachable", 0) for r in results.values())
+    unreachable = sum((r["props"].get("unreachable") or 0) for r in results.values())
     cov_sat = sum(len(r["covers_satisfied"]) for r in results.values())
     cov_tot = cov_sat + sum(len(r["covers_unsatisfied"]) for r in results.values())
     nontrivial = sum(1 for h, v in verdicts.items()
@@ -602,8 +725,8 @@ def write_evidence(prop, tier, seed, fams, results, verdicts, violations, known_
                 fam = f["name"]
         per_h.append({
             "harness": h, "family": fam, "verdict": verdicts[h],
-            "cbmc_checks": r["props"].get("total_properties", 0),
-            "cbmc_checks_passed": r["props"].get("passed", 0),
+            "cbmc_checks": r["props"].get("total_properties") or 0,
+            "cbmc_checks_passed": r["props"].get("passed") or 0,
             "covers_satisfied": r["covers_satisfied"],
             "covers_unsatisfied": r["covers_unsatisfied"],
             "failed_checks": sorted(set(f["description"] for f in r["failed"] if relevant(f, prop))),
@@ -615,6 +738,7 @@ def write_evidence(prop, tier, seed, fams, results, verdicts, violations, known_
             "vccs": r["stats"].get("vccs_generated"),
             "vccs_after_simplification": r["stats"].get("vccs_remaining"),
             "replay": (r.get("replay") or {}).get("path"),
+            "replayed_natively": (r.get("replay") or {}).get("native"),
             "known_finding": r.get("known"),
         })
     samples = []
@@ -676,6 +800,7 @@ def write_evidence(prop, tier, seed, fams, results, verdicts, violations, known_
             "outside_the_claim": outside,
             "harnesses": per_h,
             "inconclusive": inconclusive,
+            "counterexamples_reported_on_solver_verdict_only": list(solver_only),
             "broken": broken,
             "known_findings_reported": sorted(set(known_lines)),
             "syntactic_guards": [{"file": g["file"], "what": g["what"], "ok": ok} for g, ok, _ in guards],
@@ -728,6 +853,7 @@ def do_setup():
             log("[setup] bytes model validation FAILED")
             rc = 1
     # 2. base build of the Kani harness crate (compiles /repo under Kani)
+    gen_admission()
     sync_lock(KANI_CRATE)
     base = os.path.join(TARGET, "kani-base")
     lg = os.path.join(TARGET, "setup-kani.log")
@@ -762,6 +888,24 @@ def do_replay(prop, path):
     if not os.path.exists(path):
         log("replay file not found: %s" % path)
         return 2
+    if path.endswith(".solver-witness.txt"):
+        txt = open(path).read()
+        m = re.search(r"^harness: (\S+)", txt, re.M)
+        if not m:
+            return 2
+        h = m.group(1)
+        log("solver-only witness: re-running harness %s" % h)
+        gen_admission()
+        tdir = target_dir("kani", prop)
+        outdir = os.path.join(TARGET, "out-%s-replay" % prop)
+        os.makedirs(outdir, exist_ok=True)
+        rc, dt, data, lg = kani_stage(prop, "replay", [h], 1, 1800, 24, ["--exact"], tdir, outdir)
+        recs = parse_stage(data, lg)
+        r = recs.get(h)
+        if r and classify(r, prop) == "failed":
+            log("VIOLATION property=%s replay=%s" % (prop, path))
+            return 1
+        return 0 if r and classify(r, prop) == "pass" else 2
     rep = native_replay(prop, path, release=False)
     log("replay (dev profile, real crates): failed tests=%s passed=%s" % (rep["failed"], rep["passed"]))
     for a, b in rep["panics"]:
@@ -782,7 +926,12 @@ def main():
     ap.add_argument("--setup", action="store_true")
     ap.add_argument("--replay")
     ap.add_argument("--list", action="store_true")
+    ap.add_argument("--gen", action="store_true", help="only (re)generate src/generated from /repo")
     a = ap.parse_args()
+    if a.gen:
+        for pr in gen_admission():
+            log("WARNING " + pr)
+        sys.exit(0)
     if a.setup:
         sys.exit(do_setup())
     if a.list:
